@@ -168,7 +168,14 @@ def add_belt():
             return bad_input(v["len"] not in KL)
 
         def bw(x, c, v):
+            if v.get("place") == "mac_in_dest" and v["count1"] >= 8:
+                D = x.out(v["count1"])
+                return W, [D, D.at(v["count1"] - 8), data(x, c, v["count1"]), v["count1"], data(x, c, v["count2"], "a"), v["count2"], data(x, c, v["len"], "k", 64), v["len"], data(x, c, 16, "iv")]
             return W, [x.out(v["count1"]), x.out(8), data(x, c, v["count1"]), v["count1"], data(x, c, v["count2"], "a"), v["count2"], data(x, c, v["len"], "k", 64), v["len"], data(x, c, 16, "iv")]
+
+        def expect_w(v, c):
+            # belt.h (Wrap): "\expect{ERR_BAD_INPUT} ... - буферы dest и mac не пересекаются"
+            return bad_input(v["len"] not in KL or (v.get("place") == "mac_in_dest" and v["count1"] >= 8))
 
         def bu(x, c, v):
             ct, mac = data(x, c, v["count1"], "ct"), x.zero(8)
@@ -179,7 +186,7 @@ def add_belt():
                 ct, mac = a[0], a[1]
             return U, [x.out(v["count1"]), ct, v["count1"], data(x, c, v["count2"], "a"), v["count2"], mac, data(x, c, v["len"], "k", 64), v["len"], data(x, c, 16, "iv")]
         sw = {"count1": [0, 1, 15, 16, 17, 33], "count2": [0, 1, 15, 16, 17, 33], "len": KEYLENS}
-        add(W, defaults, sw, expect, bw)
+        add(W, lambda c: dict(defaults(c), place="apart"), dict(sw, place=["apart", "mac_in_dest"]), expect_w, bw)
         add(U, defaults, sw, expect, bu)
     aead("DWP")
     aead("CHE")
@@ -206,11 +213,12 @@ def add_belt():
     # FMT: "\expect{ERR_BAD_INPUT} - 2 <= mod && mod <= 65536; - 2 <= count; - len == 16 || len == 24 || len == 32; ..."  "\expect{ERR_NOT_IMPLEMENTED} count <= 600."
     def fmt(fn):
         def defaults(c):
-            return {"mod": [10, 256, 1000, 65536, 2, 3, 65535, 257][c["L"] % 8], "count": 2 + (c["L"] * 13) % 60, "len": klen(c)}
+            return {"mod": [10, 256, 1000, 65536, 2, 3, 65535, 257][c["L"] % 8], "count": 2 + (c["L"] * 13) % 60, "len": klen(c), "place": "apart"}
 
         def expect(v, c):
             e = []
-            if not 2 <= v["mod"] <= 65536 or v["count"] < 2 or v["len"] not in KL:
+            # belt.h: "\expect{ERR_BAD_INPUT} ... - если iv ненулевой, то буферы iv и [count]dest не пересекаются" ("Все буферы, кроме iv и [count]dest, могут пересекаться")
+            if not 2 <= v["mod"] <= 65536 or v["count"] < 2 or v["len"] not in KL or (v["place"].startswith("iv_in_dest") and 9 <= v["count"] <= 601):
                 e.append("ERR_BAD_INPUT")
             if v["count"] > 600:
                 e.append("ERR_NOT_IMPLEMENTED")
@@ -221,8 +229,19 @@ def add_belt():
             raw = expand(c["seed"] + "f", 2 * cnt)
             m = mod if 2 <= mod <= 65536 else 1
             src = b"".join((int.from_bytes(raw[2 * j:2 * j + 2], "little") % m).to_bytes(2, "little") for j in range(cnt))
+            if v["place"] != "apart" and cnt >= 9:
+                # iv (16 octets) inside the destination (forbidden) or inside the source only (allowed)
+                if v["place"].startswith("iv_in_dest"):
+                    D = x.out(2 * cnt)
+                    off = {"iv_in_dest_lo": 0, "iv_in_dest_hi": 2 * cnt - 16, "iv_in_dest_1": 2 * cnt - 1}[v["place"]]
+                    if off == 2 * cnt - 1:
+                        D = x.out(2 * cnt + 15)        # one octet of overlap: iv starts at the last octet of dest
+                    return fn, [D, mod, x.buf(src), v["count"], data(x, c, v["len"], "k", 64), v["len"], D.at(off)]
+                S_ = x.buf(src)
+                return fn, [x.out(2 * cnt), mod, S_, v["count"], data(x, c, v["len"], "k", 64), v["len"], S_.at(0)]
             return fn, [x.out(2 * cnt), mod, x.buf(src), v["count"], data(x, c, v["len"], "k", 64), v["len"], data(x, c, 16, "iv") if c["L"] % 2 else None]
-        add(fn, defaults, {"mod": [0, 1, 2, 3, 10, 255, 256, 257, 65535, 65536, 65537, 0x80000000, 0xFFFFFFFF], "count": [0, 1, 2, 3, 599, 600, 601, HALF, SIZE_MAX], "len": KEYLENS}, expect, build)
+        add(fn, defaults, {"mod": [0, 1, 2, 3, 10, 255, 256, 257, 65535, 65536, 65537, 0x80000000, 0xFFFFFFFF], "count": [0, 1, 2, 3, 599, 600, 601, HALF, SIZE_MAX], "len": KEYLENS,
+                           "place": ["apart", "iv_in_dest_lo", "iv_in_dest_hi", "iv_in_dest_1", "iv_in_src"]}, expect, build)
     fmt("beltFMTEncr")
     fmt("beltFMTDecr")
 
